@@ -124,3 +124,73 @@ def emissions(fn: ast.AST, method: str = "write_line", receiver: Optional[str] =
                 raise AnalysisError("emitted line is not a foldable format expression: %s" % q.unparse(n.args[0])[:100])
             out.append(Emission(n, ff[0], ff[1], ff[2]))
     return out
+
+
+def _emission_from_expr(node: ast.AST) -> Emission:
+    ff = fold_format(node)
+    if ff is None:
+        raise AnalysisError("emitted line is not a foldable format expression: %s" % q.unparse(node)[:100])
+    return Emission(node, ff[0], ff[1], ff[2])
+
+
+def emission_program(repo, fi, writer: str, method: str = "write_line"):
+    """Where the lines a generator emits are *built*.
+
+    Usually ``fi`` calls ``writer.write_line(<format>)`` itself: returns (fi, emissions, {}).  After function
+    splitting the generator may read ``for line in self._lines(args): writer.write_line(line, ...)``: then the
+    lines are the elements of the list ``_lines`` returns -- its list display (in order) and later
+    ``.append(..)`` calls -- and the result is (helper FuncInfo, those emissions, {helper parameter: argument
+    expression of the call}).  The ``call`` of each Emission is an AST node inside the returned function, so
+    ``cfg.nodes_for(e.call)`` locates the event on that function's CFG.  Anything else -> AnalysisError."""
+    direct = emissions(fi.node, method, writer)
+    names = [e for e in direct if e.template == PH and isinstance(e.exprs[0], ast.Name)]
+    if not names:
+        return fi, direct, {}
+    if len(direct) != 1:
+        raise AnalysisError("%s: mixes literal emissions with lines taken from a variable" % fi.qualname)
+    var = names[0].exprs[0].id
+    loops = [n for n in q.walk_body(fi.node) if isinstance(n, (ast.For,)) and isinstance(n.target, ast.Name) and n.target.id == var]
+    if len(loops) != 1 or not isinstance(loops[0].iter, ast.Call):
+        raise AnalysisError("%s: emitted variable %s is not the target of a loop over a helper call" % (fi.qualname, var))
+    lp = loops[0]
+    if any(isinstance(x, (ast.If, ast.Continue, ast.Break)) for x in ast.walk(lp)) or not any(names[0].call is x for x in ast.walk(lp)):
+        raise AnalysisError("%s: the emitting loop is conditional" % fi.qualname)
+    call = lp.iter
+    h = None
+    m = fi.module
+    if isinstance(call.func, ast.Attribute) and q.dotted(call.func.value) == "self" and fi.cls is not None:
+        h = m.funcs.get("%s.%s" % (fi.qualname.split(".")[0], call.func.attr))
+    elif isinstance(call.func, ast.Name):
+        h = m.funcs.get(call.func.id)
+    if h is None:
+        raise AnalysisError("%s: helper producing the emitted lines not found: %s" % (fi.qualname, q.unparse(call.func)))
+    hp = [p_ for p_ in h.params() if p_ != "self"]
+    binding = {hp[i]: a for i, a in enumerate(call.args) if i < len(hp)}
+    binding.update({k.arg: k.value for k in call.keywords if k.arg})
+    rets = [r for r in q.walk_body(h.node) if isinstance(r, ast.Return)]
+    lst = {q.dotted(r.value) for r in rets if r.value is not None}
+    if len(lst) != 1 or None in lst or not rets:
+        raise AnalysisError("%s: does not return one list variable" % h.qualname)
+    L = lst.pop()
+    out = []
+    n_def = 0
+    for st in q.walk_body(h.node):
+        if isinstance(st, (ast.Assign, ast.AnnAssign)) and L in q.assigned_paths(st):
+            n_def += 1
+            if not isinstance(st.value, ast.List):
+                raise AnalysisError("%s: %s is not built from a list display" % (h.qualname, L))
+            out += [_emission_from_expr(el) for el in st.value.elts]
+        elif isinstance(st, ast.AugAssign) and L in q.assigned_paths(st):
+            if not (isinstance(st.op, ast.Add) and isinstance(st.value, ast.List)):
+                raise AnalysisError("%s: update of %s not understood" % (h.qualname, L))
+            out += [_emission_from_expr(el) for el in st.value.elts]
+        elif isinstance(st, ast.Call) and isinstance(st.func, ast.Attribute) and q.dotted(st.func.value) == L:
+            if st.func.attr == "append" and len(st.args) == 1:
+                out.append(_emission_from_expr(st.args[0]))
+            elif st.func.attr == "extend" and len(st.args) == 1 and isinstance(st.args[0], ast.List):
+                out += [_emission_from_expr(el) for el in st.args[0].elts]
+            else:
+                raise AnalysisError("%s: operation %s on the line list is not understood" % (h.qualname, st.func.attr))
+    if n_def != 1:
+        raise AnalysisError("%s: the line list %s is bound %d times" % (h.qualname, L, n_def))
+    return h, out, binding
